@@ -21,7 +21,7 @@ MIRI_NOLEAK = {"MIRIFLAGS": "-Zmiri-ignore-leaks"}
 ASAN_NOLEAK = {"ASAN_OPTIONS": "detect_leaks=0:halt_on_error=1:abort_on_error=0:exitcode=98"}
 
 
-def history_plan(workload, tier, seed, features=(), native_ops=6000, miri_ops=70, asan_ops=5000, worlds=("main", "small"), tools=None, scale=1.0, leaks=True, extra=()):
+def history_plan(workload, tier, seed, features=(), native_ops=6000, miri_ops=60, asan_ops=3500, worlds=("main", "small"), tools=None, scale=1.0, leaks=True, extra=()):
     """Standard tool matrix for one history workload."""
     dbg, rel = Config("dbg", features), Config("rel", features)
     mdbg, mrel, asan, vg = Config("miri-dbg", features), Config("miri-rel", features), Config("asan", features), Config("vg", features)
@@ -116,7 +116,7 @@ reg(Prop(
 
 reg(Prop(
     "C03", "exploration",
-    lambda tier, seed: history_plan("forge", tier, seed, native_ops=2500, miri_ops=50, asan_ops=2500)
+    lambda tier, seed: history_plan("forge", tier, seed, native_ops=2500, miri_ops=40, asan_ops=2500)
     + (shards(Config("vg"), "forge", "main", 8, 1500, seed + 5000, timeout=3000) if tier == "thorough" else []),
     accept=["C03"],
     floors={"forge.foreign_direct_minted": 200, "forge|free-slot-current-generation|absent": 1000, "forge|position==capacity|absent": 100,
@@ -294,3 +294,51 @@ reg(Prop(
     floors={"events.checks": 5000, "events.size_hints_checked": 50000, "op.clear_events.world": 20, "op.clear_events.archetype": 50, "iter_destroy.destroyed": 100, "clones_made": 20},
     rule=HIST + "built with the events feature: after every step each archetype's iter_created / iter_destroyed is compared (as multisets) with the handles the model saw created / destroyed since the last clear, through both create paths, all four destroy key kinds at both levels and ecs_iter_destroy!; the world-level iterators are stepped one next() at a time with size_hint checked at every position (and after exhaustion) and must yield exactly the union; clears at archetype and world level at random points; clones must carry pending events. distinct_nontrivial = distinct per-archetype (created-log empty?, destroyed-log empty?) patterns seen by the world iterator check in the largest single process",
     nontrivial_key="event_log_emptiness_patterns", assumptions=COMMON_ASSUME, design_ref="DESIGN.md section 4, C17"))
+
+
+FEATS = ["events", "wrapping_version", "c32"]
+
+
+def all_feature_sets():
+    out = []
+    for m in range(8):
+        out.append(tuple(f for i, f in enumerate(FEATS) if m & (1 << i)))
+    return out
+
+
+def plan_c19(tier, seed):
+    jobs = []
+    sets = [(), tuple(FEATS)] if tier == "quick" else all_feature_sets()
+    ops = 2500 if tier == "quick" else 12000
+    for fs in sets:
+        for tool in ("dbg", "rel"):
+            cfg = Config(tool, fs)
+            for wl in ("churn", "values", "drops", "direct", "capacity", "clone", "iter", "iterdestroy", "events", "faults"):
+                # same (workload, seed, shard, ops) in every configuration: digests are compared
+                jobs += shards(cfg, wl, "main", 1, ops, seed + 7, timeout=3000)
+                jobs += shards(cfg, wl, "small", 1, ops, seed + 8, timeout=3000)
+            jobs += shards(cfg, "overflow", "main", 2, ops, seed + 9, timeout=3000)
+            jobs += shards(cfg, "forge", "main", 1, ops // 2, seed + 10, timeout=3000)
+            jobs += shards(cfg, "convert", "main", 1, 20000, seed + 11, timeout=3000)
+            jobs += shards(cfg, "borrow", "small", 1, 20, seed + 12, nshards_arg=True, timeout=3000)
+            jobs += shards(cfg, "iterdestroy-exhaustive", "small", 1, 0, seed, extra=["nmax=5"], nshards_arg=True, timeout=3000)
+    msets = [tuple(FEATS)] if tier == "quick" else [(), tuple(FEATS), ("wrapping_version",)]
+    for fs in msets:
+        n = 3 if tier == "quick" else 8
+        jobs += shards(Config("miri-rel", fs), "churn", "main", n, 60, seed + 20, timeout=3000)
+        jobs += shards(Config("miri-rel", fs), "overflow", "main", n, 60, seed + 21, timeout=3000)
+        jobs += shards(Config("miri-dbg", fs), "drops", "main", n, 60, seed + 22, timeout=3000)
+        if tier == "thorough":
+            jobs += shards(Config("asan", fs), "churn", "main", 4, ops, seed + 23, timeout=3000)
+            jobs += shards(Config("asan", fs), "overflow", "main", 4, ops, seed + 24, timeout=3000)
+    if tier == "thorough":
+        jobs.append(Job(Config("rel", ("wrapping_version",)), ["realoverflow"], timeout=3000))
+    return jobs
+
+
+reg(Prop(
+    "C19", "exploration", plan_c19,
+    accept=["ANY", "C19"],
+    floors={"handles_issued": 50000, "overflow.scenarios": 50, "events.checks": 1000},
+    rule="the E1 suite (churn, values, drops, direct, capacity, clone, iter, iterdestroy, events, faults, overflow, forge, convert, borrow matrix, exhaustive iter_destroy) is rebuilt and re-run per configuration: quick = feature sets {} and {events, wrapping_version, 32_components} x {debug assertions on, off} + Miri on the all-features build; thorough = all 8 feature sets x {dbg, rel} + Miri and ASan on {}, all, wrapping_version + a hook-free 2^32-cycle wraparound. Every oracle of every other property must hold in every configuration; the observation digest (handles issued, capacities, destroy order) of the same seeded history must be identical across all configurations with the same world shape (the 17- and 32-column archetypes exist only with 32_components); wrapping_version crosses the 2^32 boundary (hook H2) without panic, UB or a generation 0; E2 verdict programs check that 17 columns need 32_components, 33 are always rejected and iter_created exists only with events. distinct_nontrivial = distinct (tool, feature set) configurations run",
+    nontrivial_key=None, assumptions=COMMON_ASSUME, design_ref="DESIGN.md section 4, C19"))
